@@ -654,7 +654,8 @@ NAME_FAMILIES = [["0", "", "a", "A", " a", "aa", "b"], ["1", "01", "1.0", "10", 
 
 def gen_contest(rng, i, stream, used_limits):
     NAMES = rng.choice(NAME_FAMILIES) if rng.chance(0.12) else globals()["NAMES"]
-    cid = f"c{i}" if not rng.chance(0.06) else ["0", "", " c"][i % 3]
+    # (distinct for distinct i: two contests with one id are one dict key)
+    cid = f"c{i}" if not rng.chance(0.06) else (["0", "", " c", "00", "C0", " 0", "c", "0 "][i] if i < 8 else f"c{i}")
     lims = [l for l in LIMITS if l not in used_limits] or LIMITS
     rl = rng.choice(lims)
     used_limits.append(rl)
